@@ -43,6 +43,17 @@ func observeCheck(knut, dir string, id int, j *kj.Journal, cs map[string]any) {
 		obs["accept"] = false
 		obs["errz"] = -1
 	}
+	// "check exits 0, and every report command proceeds": the report commands must agree with check, also
+	// when the report's window ends before the offending directive
+	reports := []any{}
+	if id%3 == 0 {
+		lo, hi := journalSpan(j)
+		for _, argv := range [][]string{{"balance", "--color=false"}, {"balance", "--color=false", "--to", ymd((lo + hi) / 2), "--days"}, {"print"}, {"balance", "--color=false", "--from", ymd(hi + 1)}} {
+			rr := core.Run(core.RunOpts{Timeout: 30 * time.Second}, knut, append(argv, file)...)
+			reports = append(reports, rr.Exit == 0)
+		}
+	}
+	obs["reports"] = reports
 	cs["obs"] = obs
 	cs["text"] = text
 }
